@@ -10,10 +10,13 @@ from . import ops
 from .common import Recorder
 from .hist import HIST_SCHEMAS, check_map_faithful, histories, step_json
 
+# "note": an inline atom with content (positions inside it are ordinary positions)
+SCHEMAS = HIST_SCHEMAS + ["note"]
+
 
 def run(tier, seed, findings):
     rec = Recorder("C03")
-    for name in HIST_SCHEMAS:
+    for name in SCHEMAS:
         S, O = D.schema(name)
         # every step emitted by the high-level operations
         for doc, log, tr in histories(name, tier, seed):
@@ -43,5 +46,5 @@ def run(tier, seed, findings):
                 check_map_faithful(rec, name, doc, r.doc, step, call)
     return rec.result(
         rule="every successfully applied step: those emitted by histories of transform operations and primitive steps of all kinds; size delta vs the map's ranges (taken from for_each) and every old token outside the ranges found at its mapped position; distinct by (schema, document, step JSON)",
-        bounds=dict(tier=tier, schemas=HIST_SCHEMAS),
+        bounds=dict(tier=tier, schemas=SCHEMAS),
     )
